@@ -24,7 +24,10 @@ PROP = 'C19'
 RULE = ("history = 1..8 processes x 3..12 operations each (set / bulk_set of 1..3 keys / get "
         "/ unset) over 1..3 keys with random sub-millisecond pauses; non-trivial = >= 2 "
         "processes, some get returned a value written by another process and some get "
-        "returned None after an unset or before any set; distinct by history hash")
+        "returned None after an unset or before any set; plus histories of 2..4 processes x "
+        "25..45 operations in which get() meets an injected transient dbm error on its first "
+        "open (retry path, back-off sleep scaled down) while other processes keep writing; "
+        "distinct by history hash")
 
 
 def gen_case(rng, tier):
@@ -51,7 +54,32 @@ def gen_case(rng, tier):
     return {'progs': progs, 'pauses': rng.randrange(1 << 30)}
 
 
-def child(p, ops, gpath, logf, seed):
+def gen_inject_case(rng, tier):
+    """ histories in which get() meets a transient dbm error on its first open and goes
+    through its sleep-and-retry path while other processes keep writing the same key """
+    nproc = rng.choice([2, 3, 4])
+    nkeys = rng.choice([1, 1, 2])
+    progs = []
+    for p in range(nproc):
+        writer = p % 2 == 1
+        ops = []
+        for i in range(rng.randrange(25, 45)):
+            r = rng.random()
+            k = rng.randrange(nkeys)
+            if r < (0.75 if writer else 0.1):
+                ops.append(['set', k, f'v{rng.randrange(3)}'])
+            elif r < (0.85 if writer else 0.15):
+                ops.append(['bulk', [[kk, f'v{rng.randrange(3)}'] for kk in range(nkeys)]])
+            else:
+                ops.append(['get', k])
+        progs.append(ops)
+    # every key is set before anything else happens, and never unset: no get may see None
+    progs[0] = [['bulk', [[k, 'v0'] for k in range(nkeys)]]] + progs[0]
+    return {'progs': progs, 'pauses': rng.randrange(1 << 30), 'inject': rng.choice([0.5, 0.9]),
+            'head_start': True}
+
+
+def child(p, ops, gpath, logf, seed, inject=0.0, wait_for=None):
     import random
     core.import_searchkit()
     import fasteners
@@ -64,6 +92,47 @@ def child(p, ops, gpath, logf, seed):
 
     cache = MPCache('cid', 'ctype', gpath)
     lock = cache.cache_lock
+    arm = {'n': 0}
+    if inject:
+        # transient "database is locked by another process" errors: the first shelve.open of
+        # a get() raises dbm.gnu.error (a stand-in class where the _gdbm extension is absent),
+        # and the 10 s back-off sleep of the retry loop is scaled to milliseconds
+        import dbm
+        import shelve as real_shelve
+        import types
+        from searchkit import utils as U
+        try:
+            import dbm.gnu  # noqa, pylint: disable=unused-import
+        except ImportError:
+            shim = types.ModuleType('dbm.gnu')
+            shim.error = type('error', (OSError,), {})
+            dbm.gnu = shim          # attribute only: dbm.open() must not pick it up as a backend
+
+        class ShelveProxy:
+            def __getattr__(self, name):
+                return getattr(real_shelve, name)
+
+            @staticmethod
+            def open(*a, **k):
+                log('open', bool(lock.acquired))
+                if arm['n'] > 0:
+                    arm['n'] -= 1
+                    log('injected')
+                    raise dbm.gnu.error(11, 'Resource temporarily unavailable (injected)')
+                return real_shelve.open(*a, **k)
+
+        class TimeProxy:
+            def __getattr__(self, name):
+                return getattr(time, name)
+
+            @staticmethod
+            def sleep(secs):
+                time.sleep(min(secs, 10) / 4000)
+        U.shelve = ShelveProxy()
+        U.time = TimeProxy()
+    if wait_for:
+        while not os.path.exists(wait_for):
+            time.sleep(0.0005)
     orig_acq, orig_rel = lock.acquire, lock.release
 
     def acquire(*a, **k):
@@ -79,6 +148,8 @@ def child(p, ops, gpath, logf, seed):
     for op in ops:
         if rng.random() < 0.5:
             time.sleep(rng.random() / 2000)
+        if inject and op[0] == 'get' and rng.random() < inject:
+            arm['n'] = 1 if rng.random() < 0.8 else 2
         log('inv', op)
         try:
             if op[0] == 'set':
@@ -92,6 +163,8 @@ def child(p, ops, gpath, logf, seed):
             log('resp', ret)
         except Exception as e:  # pylint: disable=broad-except
             log('exc', type(e).__name__)
+        if wait_for is None and inject and op is ops[0]:
+            open(os.path.join(os.path.dirname(logf), 'go'), 'w').close()
     os.close(fd)
 
 
@@ -100,8 +173,10 @@ def run_impl(case):
     logf = os.path.join(tmp, 'trace.log')
     open(logf, 'w').close()
     ctx = multiprocessing.get_context('fork')
+    go = os.path.join(tmp, 'go') if case.get('head_start') else None
     procs = [ctx.Process(target=child, args=(p, ops, os.path.join(tmp, 'g'), logf,
-                                             case['pauses']))
+                                             case['pauses'], case.get('inject', 0.0),
+                                             go if p else None))
              for p, ops in enumerate(case['progs'])]
     try:
         for pr in procs:
@@ -132,7 +207,12 @@ def eval_cases(rng, count, extra):
     todo = fixed if fixed is not None else [None] * count
     out = []
     for item in todo:
-        case = item if item is not None else gen_case(rng, extra.get('tier', 'quick'))
+        if item is not None:
+            case = item
+        elif extra.get('inject'):
+            case = gen_inject_case(rng, extra.get('tier', 'quick'))
+        else:
+            case = gen_case(rng, extra.get('tier', 'quick'))
         out.append({'case': case, 'impl': run_impl(case)})
     return out
 
@@ -164,6 +244,10 @@ def operations(impl):
     return ops
 
 
+class SearchBudget(Exception):
+    pass
+
+
 def linearizable(ops, budget=200000):
     """ Wing-Gong search for a legal sequential register history respecting real time """
     n = len(ops)
@@ -188,7 +272,7 @@ def linearizable(ops, budget=200000):
     def rec(done, state):
         steps[0] += 1
         if steps[0] > budget:
-            return None
+            raise SearchBudget()
         if len(done) == n:
             return []
         key = (done, tuple(sorted(state.items())))
@@ -207,7 +291,10 @@ def linearizable(ops, budget=200000):
             if r is not None:
                 return [i] + r
         return None
-    return rec(frozenset(), {})
+    try:
+        return rec(frozenset(), {})
+    except (SearchBudget, RecursionError):
+        return 'unknown'
 
 
 def judge(rep, item, mobs):
@@ -235,13 +322,27 @@ def judge(rep, item, mobs):
                  f"{('operation raised ' + excs[0][3] + '; ') if excs else ''}"
                  f"{len(ops)}/{total} operations completed", impl=impl['events'][-12:])
         return
+    if case.get('inject'):
+        rep.count('histories_with_transient_errors')
+        rep.count('transient_errors_injected',
+                  sum(1 for e in impl['events'] if e[2] == 'injected'))
     m = mobs['model']
-    if m['valid'] and m['specReplayOk'] and m['logLen'] == total:
+    unlocked = [e for e in impl['events'] if e[2] == 'open' and not e[3]]
+    if m['valid'] and m['specReplayOk'] and m['logLen'] == total and not unlocked:
         rep.traces_validated += 1
         return
     # the lock-order witness failed: is there any linearisation at all?
     lin = linearizable(ops)
-    if lin is None:
+    if lin == 'unknown':
+        rep.fail('correspondence-broken', case,
+                 f"critical-section trace is not a run of the model: {m['why']}; the search "
+                 "for a linearisation of the history ran out of budget", model=m)
+    elif lin is not None and unlocked and m['valid'] and m['specReplayOk']:
+        rep.fail('correspondence-broken', case,
+                 f"process {unlocked[0][1]} opened the shelve without holding the cache lock "
+                 "(the model's accesses are inside the critical section); the recorded history "
+                 "is still linearisable", impl=impl['events'][:40], model=m)
+    elif lin is None:
         rep.fail('failing-input', case,
                  "no linearisation of the recorded history exists (a get returned a torn, "
                  f"stale or foreign value); lock-order replay: {m['why']}",
@@ -264,6 +365,9 @@ def run(tier, seed, replay_case=None):
     if replay_case is None:
         items += core.run_sharded(eval_cases, seed, total, {'tier': tier},
                                   shards=min(core.NCPU, total), workers=6)
+        ninj = 12 if tier == 'quick' else 200
+        items += core.run_sharded(eval_cases, seed + 1, ninj, {'tier': tier, 'inject': True},
+                                  shards=min(core.NCPU, ninj), workers=6)
     mobs = core.Driver().run([model_case(it) for it in items])
     for it, mo in zip(items, mobs):
         judge(rep, it, mo)
